@@ -507,6 +507,9 @@ func (cr *checkRun) report() int {
 		kinds[o.Kind]++
 		if o.Status == "discharged" {
 			discharged++
+			if o.Seconds > 3 && os.Getenv("VERIF_SLOW") != "" {
+				fmt.Printf("SLOW %.1fs %s %s\n", o.Seconds, o.Solver, o.Name)
+			}
 			if len(samples) < 6 {
 				samples = append(samples, map[string]string{"obligation": o.Name, "clause": o.Clause, "solver": o.Solver, "position": o.Pos})
 			}
